@@ -56,19 +56,21 @@ def subchains(name: str, max_distance: int = 9) -> List[List[str]]:
 
 
 def gen_repcode_input(rng: random.Random, max_distance: int = 4, max_cycles: int = 8, constructors=("full", "full", "simplified"),
-                      ancilla_states: bool = True, connectivity: bool = True) -> Dict[str, Any]:
+                      ancilla_states: bool = True, connectivity: bool = True, min_distance: int = 2) -> Dict[str, Any]:
     constructor = rng.choice(constructors)
     mode = rng.choice(["initial_state", "chain", "connectivity"] if connectivity else ["initial_state", "chain"])
     inp: Dict[str, Any] = {"constructor": constructor, "description": mode, "refocus": rng.random() < 0.7}
     if mode == "connectivity":
         name = rng.choice(LAYOUTS)
         segs = subchains(name, max_distance)
+        if min_distance <= 1 and rng.random() < 0.12:
+            segs = [[q] for q in layout_chain(name)[::2]]      # a single data qubit: distance 1, no ancilla
         seg = rng.choice(segs)
         inp["layout"] = name
         inp["involved"] = seg
         d = (len(seg) + 1) // 2
     else:
-        d = rng.randint(2, max_distance)
+        d = rng.randint(2, max_distance) if min_distance >= 2 or rng.random() >= 0.12 else 1
     inp["distance"] = d
     inp["data_state"] = [rng.randint(0, 1) for _ in range(d)]
     if ancilla_states and rng.random() < 0.4:
@@ -116,8 +118,13 @@ def construct(inp: Dict[str, Any]):
         # one description object serves several constructions: an earlier construction (other constructor, other cycle count,
         # listed and unrolled) must not change what the next one builds
         other = construct_repetition_code_circuit_simplified if inp["constructor"] == "full" else construct_repetition_code_circuit
-        warm = other(qec_cycles=inp["cycles"] + 1, description=description, initial_state=initial_state_of(inp))
-        warm.apply_modifiers().operations
+        try:
+            warm = other(qec_cycles=inp["cycles"] + 1, description=description, initial_state=initial_state_of(inp))
+            warm.apply_modifiers().operations
+        except Exception:
+            # the warm-up construction is not the subject (e.g. the simplified constructor has no distance-1 circuit); only its
+            # effect on the description matters
+            pass
         description.gate_sequences
     return fn(qec_cycles=inp["cycles"], description=description, initial_state=initial_state_of(inp))
 
